@@ -198,5 +198,28 @@ namespace rkcommon {
       return a.ptr != b.ptr;
     }
 
+    // handles to different (related) types, e.g. IntrusivePtr<Base> and
+    // IntrusivePtr<Derived>: compare the objects pointed at. Without these
+    // overloads such a comparison compiles through the implicit conversions to
+    // bool and calls any two non-null handles equal.
+
+    template <typename T, typename U>
+    inline bool operator<(const IntrusivePtr<T> &a, const IntrusivePtr<U> &b)
+    {
+      return a.ptr < b.ptr;
+    }
+
+    template <typename T, typename U>
+    inline bool operator==(const IntrusivePtr<T> &a, const IntrusivePtr<U> &b)
+    {
+      return a.ptr == b.ptr;
+    }
+
+    template <typename T, typename U>
+    inline bool operator!=(const IntrusivePtr<T> &a, const IntrusivePtr<U> &b)
+    {
+      return a.ptr != b.ptr;
+    }
+
   }  // namespace memory
 }  // namespace rkcommon
